@@ -118,6 +118,7 @@ type machine struct {
 	poolMode     int
 	hadViolation bool
 	hangCheck    bool
+	racy         map[string]bool
 	lastRet      value
 	known        map[*term]bool
 	timers       []*vtimer
@@ -377,6 +378,7 @@ func (m *machine) resetPathState(prefix []int64, mdl model) {
 	m.allocDepth = 0
 	m.inconclusive = 0
 	m.known = map[*term]bool{}
+	m.racy = nil
 	m.hangCheck = false
 	m.maxSteps = m.world.cfg.maxSteps
 	m.resetEnvModels()
